@@ -88,7 +88,16 @@ def redact_claims(claims: Mapping[str, object]) -> dict[str, object]:
         A new dict with the same keys, sensitive values replaced.
 
     """
-    return {k: (REDACTED if _DEFAULT_CLAIM_REDACT_RE.search(k) else v) for k, v in claims.items()}
+    return {k: (REDACTED if _DEFAULT_CLAIM_REDACT_RE.search(k) else _redact_nested(v)) for k, v in claims.items()}
+
+
+def _redact_nested(value: object) -> object:
+    """Redact sensitive keys of objects nested in *value* (through objects and lists)."""
+    if isinstance(value, Mapping):
+        return redact_claims(value)
+    if isinstance(value, (list, tuple)):
+        return [_redact_nested(item) for item in value]
+    return value
 
 
 def no_redaction(claims: Mapping[str, object]) -> dict[str, object]:
